@@ -84,6 +84,8 @@ pub enum Op {
     TokenBurn { from: u8, mib: u16 },
     Advance { epochs: u32 },
     AdvanceDays { days: u16 },
+    /// jump to the expiration of an open allocation (or the end of a claim's term) + delta
+    AdvanceToExpiry { claim: bool, which: u16, delta: i8 },
 }
 
 #[derive(Clone, Debug, Serialize, Deserialize)]
@@ -121,6 +123,7 @@ fn op_strategy() -> impl Strategy<Value = Op> {
         1 => (0u8..5, 1u16..100).prop_map(|(from, mib)| Op::TokenBurn { from, mib }),
         3 => (0u32..5000).prop_map(|epochs| Op::Advance { epochs }),
         3 => prop_oneof![Just(59u16), Just(60u16), Just(61u16), 1u16..400, 400u16..2000].prop_map(|days| Op::AdvanceDays { days }),
+        4 => (prop_oneof![3 => Just(false), 1 => Just(true)], any::<u16>(), -1i8..2).prop_map(|(claim, which, delta)| Op::AdvanceToExpiry { claim, which, delta }),
     ]
 }
 
@@ -345,6 +348,22 @@ fn step(c: &mut Ctx, i: usize, op: &Op) -> VResult {
         }
         Op::AdvanceDays { days } => {
             c.f.w.v.set_epoch(epoch + *days as i64 * DAY);
+            return Ok(());
+        }
+        Op::AdvanceToExpiry { claim, which, delta } => {
+            let target = if *claim {
+                let v: Vec<i64> = before.claims.values().map(|x| x.term_start + x.term_max).collect();
+                if v.is_empty() { None } else { Some(v[pick(*which, v.len())]) }
+            } else {
+                let v: Vec<i64> = before.allocs.values().map(|x| x.expiration).collect();
+                if v.is_empty() { None } else { Some(v[pick(*which, v.len())]) }
+            };
+            if let Some(t) = target {
+                if t + *delta as i64 > epoch {
+                    c.f.w.v.set_epoch(t + *delta as i64);
+                    c.stats.label("jump_to_expiry_boundary");
+                }
+            }
             return Ok(());
         }
         Op::AddVerifier { v, cap_mib } => {
